@@ -3,6 +3,7 @@ import AdaVerif.Spec.Setters
 import AdaVerif.Lemmas.PathMain
 import AdaVerif.Lemmas.SimpleAbs
 import AdaVerif.Lemmas.ParseSpecial
+import AdaVerif.Lemmas.ParseBase
 import AdaVerif.Props.C10
 /-
 C01 — Parsing conforms to the WHATWG URL Standard for every input and base.
@@ -80,6 +81,59 @@ theorem parser_no_base_partial (idna : Idna) (input : Bytes) (hid : ∀ d, HP.Id
     (hclean : HS.bracketClean (ParseSpecial.schemeSpecial input) false (ParseSpecial.hostStart input) = true) :
     ParseSpecial.parseNoBase idna input = PS.outOf (parse idna input none) :=
   PS.parseNoBase_spec idna input hid hclean
+
+/-- **… and for every input with a base**: `parse_url_impl<ada::url>(input, &base)` on a base object that holds a record `b`
+    with the record invariants of C19 (`RecInv`, '/'-free path segments) answers exactly `Spec.parse input (some b)` - NO_SCHEME
+    (opaque bases accept a lone fragment only), SPECIAL_RELATIVE_OR_AUTHORITY, RELATIVE_SCHEME (inheritance of credentials,
+    host, port, path and query, `shorten_path` on the serialised base path, the builder continuing on it), RELATIVE_SLASH,
+    and FILE / FILE_SLASH with a `file` base (host and path inheritance, the drive-letter quirks: the starts-with test on
+    the text with its query still attached, the base's first segment taken over when it is a normalised drive letter).
+    Same side condition and IDNA parameter as without a base; `bracket_condition_plain_base`. -/
+theorem parser_with_base_partial (idna : Idna) (b : Url) (hinv : RecInv b = true) (hseg : PP.NoSlash b.path) (input : Bytes)
+    (hid : ∀ d, HP.IdnaAt idna d)
+    (hclean : HS.bracketClean (ParseSpecial.hostStartB (UR.recOf b) input).1 false (ParseSpecial.hostStartB (UR.recOf b) input).2 = true) :
+    ParseSpecial.parseWithBase idna (UR.recOf b) input = PS.outOf (parse idna input (some b)) :=
+  PB.machineB_spec idna b ⟨hinv, hseg⟩ input hid hclean
+
+theorem bracket_condition_plain_base (b : UrlRec.Rec) (input : Bytes) (h : (0x5B : UInt8) ∉ input) :
+    HS.bracketClean (ParseSpecial.hostStartB b input).1 false (ParseSpecial.hostStartB b input).2 = true :=
+  PB.clean_of_no_bracket_base b input h
+
+/-- worked instances with a base (kernel-evaluated): dot segments against an inherited path, a query-only reference, a
+    scheme-relative reference of a special scheme, a drive letter kept from a file base, an opaque base -/
+example :
+    let b : Url := { scheme := ofStr "http", username := ofStr "u", host := some (.domain (ofStr "h")), port := some 81,
+                     path := [ofStr "a", ofStr "b", ofStr "c"], query := some (ofStr "z") }
+    RecInv b = true ∧ PP.NoSlash b.path ∧
+    ParseSpecial.parseWithBase C10.asciiIdna (UR.recOf b) (ofStr "../x y?q#f") =
+      .ok { scheme := ofStr "http", special := true, username := ofStr "u", password := [], host := some (ofStr "h"),
+            port := some 81, path := ofStr "/a/x%20y", query := some (ofStr "q"), hash := some (ofStr "f"), opq := false } ∧
+    ParseSpecial.parseWithBase C10.asciiIdna (UR.recOf b) (ofStr "?q") =
+      .ok { scheme := ofStr "http", special := true, username := ofStr "u", password := [], host := some (ofStr "h"),
+            port := some 81, path := ofStr "/a/b/c", query := some (ofStr "q"), hash := none, opq := false } ∧
+    ParseSpecial.parseWithBase C10.asciiIdna (UR.recOf b) (ofStr "http:\\\\H2:80/p") =
+      .ok { scheme := ofStr "http", special := true, username := [], password := [], host := some (ofStr "h2"),
+            port := none, path := ofStr "/p", query := none, hash := none, opq := false } := by
+  refine ⟨by decide +kernel, ?_, by decide +kernel, by decide +kernel, by decide +kernel⟩
+  intro s hs
+  simp only [List.mem_cons, List.not_mem_nil, or_false] at hs
+  rcases hs with rfl | rfl | rfl <;> decide +kernel
+example :
+    let b : Url := { scheme := ofStr "file", host := some .empty, path := [ofStr "C:", ofStr "a", ofStr "b"] }
+    RecInv b = true ∧
+    ParseSpecial.parseWithBase C10.asciiIdna (UR.recOf b) (ofStr "/x") =
+      .ok { scheme := ofStr "file", special := true, username := [], password := [], host := some [],
+            port := none, path := ofStr "/C:/x", query := none, hash := none, opq := false } ∧
+    ParseSpecial.parseWithBase C10.asciiIdna (UR.recOf b) (ofStr "..") =
+      .ok { scheme := ofStr "file", special := true, username := [], password := [], host := some [],
+            port := none, path := ofStr "/C:/", query := none, hash := none, opq := false } := by decide +kernel
+example :
+    let b : Url := { scheme := ofStr "mailto", isOpaque := true, opath := ofStr "x@y" }
+    RecInv b = true ∧
+    ParseSpecial.parseWithBase C10.asciiIdna (UR.recOf b) (ofStr "#f") =
+      .ok { scheme := ofStr "mailto", special := false, username := [], password := [], host := none,
+            port := none, path := ofStr "x@y", query := none, hash := some (ofStr "f"), opq := true } ∧
+    ParseSpecial.parseWithBase C10.asciiIdna (UR.recOf b) (ofStr "x") = .invalid := by decide +kernel
 
 /-- the side condition holds for every input without a '[' -/
 theorem bracket_condition_plain (input : Bytes) (h : (0x5B : UInt8) ∉ input) :
